@@ -321,10 +321,20 @@ def families(opts):
         probs, n = r.evaluate(items, ctx)
         ctx.judged += n
         ctx.count('shapes', len(items))
+        for k, e in items:   # vacuity evidence: which operators were exercised, and how many valuations each shape could use
+            usable = 0
+            for val in M.VALUATIONS:
+                try:
+                    M.ev(e, val, strict=True)
+                    usable += 1
+                except M.DomainError:
+                    pass
+            ctx.outcome('top-operator:%s' % e[0])
+            ctx.count('usable_valuations_%d' % usable)
         if not probs:
-            ctx.outcome('pack-clean')
+            ctx.count('packs_clean')
             return
-        ctx.outcome('pack-bisected')
+        ctx.count('packs_bisected')
         for k, e in items:  # bisect: every member alone
             ctx.index = i
             p2, _ = r.evaluate([(k, e)], ctx)
